@@ -115,7 +115,8 @@ func (c *Ctx) SEC(rule string) []report.Obligation {
 	// raw resource, the key is the carrier key (secrets) or "content" (configs): the renderers blank exactly those.
 	// The key may arrive through a parameter of a shared helper; then every caller passes one of the two constants,
 	// paired with its section.
-	allowedFor := map[string]string{"secrets": xvalue, "configs": "content"}
+	// (a config may also use the carrier: the decode hook moves it into Content, which the renderers blank)
+	allowedFor := map[string][]string{"secrets": {xvalue}, "configs": {"content", xvalue}}
 	var keyConsts func(fn *ssa.Function, v ssa.Value, depth int) (keys []string, sections [][]string, ok bool)
 	keyConsts = func(fn *ssa.Function, v ssa.Value, depth int) ([]string, [][]string, bool) {
 		if k, isC := prog.ConstString(v); isC {
@@ -188,7 +189,7 @@ func (c *Ctx) SEC(rule string) []report.Obligation {
 										good = false
 									}
 									for _, sname := range secs[i] {
-										if want, has := allowedFor[sname]; has && want != k {
+										if want, has := allowedFor[sname]; has && !contains(want, k) {
 											good = false
 										}
 									}
